@@ -6,8 +6,8 @@ event interleavings are not decided.
 from rdv.core import (CheckBroken, Origins, Pos, call_matches, callee_res, infeasible_edges, norm_path, primary_edges,
                       resolve_captures, strip_generics, switch_edges, term_has, term_leaves, term_str)
 
-CONFIGS = ['default']
-THOROUGH_CONFIGS = ['security']
+CONFIGS = ['default', 'security']     # the security arms are not compiled by the default test suite: decide them on every run
+THOROUGH_CONFIGS = []
 LEVEL = 'other'
 
 W = 'rtps::writer::Writer::'
@@ -357,7 +357,7 @@ def run(rep, facts, tier):
     okg = bool(grow) and bool(gt) and all(P.every_path_passes(None, g, via_edges=gt, from_entry=True) for g in grow)
     rep.check(okg, 'R04.7', 'HistoryBuffer::add_change/last-seq-grows', 'last_seq := new_seq only if new_seq > last_seq', 'last_seq can be moved backwards by add_change', ac.where())
 
-    if tier == 'thorough' and 'security' in facts:
+    if 'security' in facts:
         fs = facts['security']
         single_reader_guard(rep, fs, fs.find(W + 'send_cache_change'), ('MessageBuilder::data_msg', 'MessageBuilder::data_frag_msg'), 'single-reader(security)')
         single_reader_guard(rep, fs, fs.find(W + 'handle_repair_frags_send_worker'), ('MessageBuilder::data_frag_msg',), 'single-reader(security)')
